@@ -1,6 +1,7 @@
 """C20 duties cache: theorems in coq/Properties/C20.v; correspondence = trace inclusion of the label
 sequences recorded from app/eth2wrap/cache.go (DutiesCache) in the model coq/Flow/Cache.v, plus the two
 trace monitors (answers / fresh-after-invalidation) and a direct aliasing probe of returned objects."""
+import concurrent.futures
 import json
 import os
 import re
@@ -35,7 +36,10 @@ Definition fresh_hits := Eval vm_compute in
   ev (fun a m act ls => first_violation_fresh (finit_with act) ls 0).
 Definition not_sets := Eval vm_compute in
   ev (fun a m act ls => if sets_only_from act ls then None else Some 0%%nat).
+Definition dup_hits := Eval vm_compute in
+  ev (fun a m act ls => if sets_only_from act ls then None else first_violation_ans a m (ginit_with act) ls 0).
 Print rejects.
+Print dup_hits.
 Print ans_hits.
 Print fresh_hits.
 Print not_sets.
@@ -48,6 +52,17 @@ def pairs(term):
 
 def lab(h, idx):
     return h["labels"][idx] if idx < len(h["labels"]) else "?"
+
+
+def kind_of_call(h, idx):
+    """duty kind of the call whose LReturn is label idx"""
+    m = re.match(r"LReturn (\d+)%nat", lab(h, idx))
+    if m:
+        for l in h["labels"][:idx][::-1]:
+            m2 = re.match(r"LLookup %s%%nat (\w+) " % m.group(1), l)
+            if m2:
+                return m2.group(1)
+    return None
 
 
 def replay_of(h, idx=None):
@@ -69,7 +84,7 @@ def main():
         "not modelled: metrics, logging, the nil-duty error branch, context cancellation",
     ]
     R.proofs()
-    n = 6000 if R.thorough else 400
+    n = 10000 if R.thorough else 400
     rc, out, od = vp.go_harness("cache", env_extra={"VERIF_N": n})
     if rc != 0:
         R.broke("correspondence:harness cache failed to run", out[-3000:])
@@ -102,18 +117,29 @@ def main():
     }
     R.add_samples([{"script": h["script"], "labels": h["labels"]} for h in hs if h.get("nontrivial") and len(h["labels"]) < 60][:2])
 
+    # one concrete violation per key (the smallest history exhibiting it), monitor findings first
+    found = {}
+
+    def violation(key, what, h, idx=None):
+        if key not in found or len(h["labels"]) < found[key][2]:
+            found[key] = (what, replay_of(h, idx), len(h["labels"]))
+        counts[key] = counts.get(key, 0) + 1
+    counts = {}
+
     # direct observations of the harness
     for h in hs:
         for a in h.get("alias") or []:
             kind = a.split(":", 1)[0]
-            R.violation("alias:cache:%s" % kind, "a caller's mutation of the answer it received is served to the next caller (%s)" % a, replay_of(h))
+            violation("alias:cache:%s" % kind, "a caller's mutation of the answer it received is served to the next caller (%s)" % a, h)
         for e in h.get("errors") or []:
-            R.violation("harness-anomaly", e, replay_of(h))
+            violation("harness-anomaly", e, h)
 
     byid = {h["id"]: h for h in hs}
-    notsets = 0
-    for shard_i, shard in enumerate(vp.chunks(hs, 500)):
-        rc, out = vp.coq_eval("C20_%d" % shard_i, cases_v(shard))
+    notsets, ndup, dup_sample = 0, 0, None
+    shards = list(vp.chunks(hs, 100))
+    with concurrent.futures.ThreadPoolExecutor(max_workers=max(1, min(8, vp.NPROC // 2))) as ex:
+        results = list(ex.map(lambda a: vp.coq_eval("C20_%d" % a[0], cases_v(a[1])), enumerate(shards)))
+    for shard_i, (rc, out) in enumerate(results):
         if rc != 0:
             R.broke("correspondence:cases_C20 does not compile", out[-3000:])
             continue
@@ -121,27 +147,40 @@ def main():
         ans = pairs(vp.parse_marked(out, "ans_hits"))
         fresh = pairs(vp.parse_marked(out, "fresh_hits"))
         notsets += len(pairs(vp.parse_marked(out, "not_sets")))
+        dups = pairs(vp.parse_marked(out, "dup_hits"))
+        ndup += len(dups)
+        if dups and dup_sample is None:
+            dup_sample = {"script": byid[dups[0][0]]["script"], "label": lab(byid[dups[0][0]], dups[0][1])}
         hit_ids = set()
         for cid, idx in fresh:
             h = byid[cid]
             hit_ids.add(cid)
             after_inval = any(l.startswith("LInvalidate") for l in h["labels"][:idx])
             key = "F10:stale-after-invalidate" if after_inval else "trim-not-refetched"
-            R.violation(key, "the first call that looks an epoch up after it was invalidated/trimmed did not ask the beacon node for all its indices (label %d: %s)" % (idx, lab(h, idx)),
-                        replay_of(h, idx))
+            violation(key, "the first call that looks an epoch up after it was invalidated/trimmed did not ask the beacon node for all its indices (label %d: %s)" % (idx, lab(h, idx)), h, idx)
         for cid, idx in ans:
             h = byid[cid]
             hit_ids.add(cid)
-            after_inval = any(l.startswith("LInvalidate") for l in h["labels"][:idx])
-            overlap = h.get("overlap")
-            key = "F10:stale-after-invalidate" if (after_inval and overlap) else "answer-differs-from-beacon"
-            R.violation(key, "an answer is not the beacon node's answer at any epoch generation between the last invalidation before the call and now (label %d: %s)" % (idx, lab(h, idx)),
-                        replay_of(h, idx))
+            # stale duties served from the cache after an invalidation: the refetch monitor failed earlier in this history
+            stale = any(c2 == cid and i2 < idx and any(l.startswith("LInvalidate") for l in h["labels"][:i2]) for c2, i2 in fresh)
+            key = "F10:stale-after-invalidate" if stale else "answer-differs-from-beacon"
+            if any(int(x) >= 5000 for x in re.findall(r"\d+", lab(h, idx))):
+                # the answer contains values a caller wrote into the answer IT had received (harness ops mutate/probe)
+                key = "alias:cache:%s" % {"KProp": "proposer", "KAtt": "attester", "KSync": "sync"}.get(kind_of_call(h, idx), "?")
+            violation(key, "an answer is not the beacon node's answer at any epoch generation between the last invalidation before the call and now (label %d: %s)" % (idx, lab(h, idx)), h, idx)
         for cid, idx in rej:
             if cid in hit_ids:
                 continue
             h = byid[cid]
             R.broke("correspondence:Cache model rejects observed trace %d at label %d (%s)" % (cid, idx, lab(h, idx)), json.dumps(replay_of(h, idx)))
+    order = ["F10:stale-after-invalidate", "answer-differs-from-beacon", "trim-not-refetched"]
+    for key in order + sorted(k for k in found if k not in order):
+        if key in found:
+            what, rp, _ = found[key]
+            R.violation(key, "%s [%d occurrence(s) this run]" % (what, counts[key]), rp)
     R.coverage["input_distribution"]["histories_with_repeated_index_requests(monitor A skipped)"] = notsets
+    if ndup:
+        R.notes.append("reading note N3 (outside the property: requests that are not index sets): in %d histories a request naming an index twice on the amend path "
+                       "made the real cache hold that validator's duties twice; the model predicts exactly this (traces accepted); e.g. %s" % (ndup, json.dumps(dup_sample)))
     R.coverage["traces_validated_against_impl"] = len(hs)
     R.finish()
